@@ -58,6 +58,67 @@ Theorem C19_metadata_within_support : forall c st o st' cid resp k sup v,
 Proof. exact stored_within_support. Qed.
 Print Assumptions C19_metadata_within_support.
 
+(* ---- 1b. RESTRICTED provider lists: all three views --------------------------------------------- *)
+(* The provider's lists are the configuration (c_support c : parameter -> list); nothing is assumed about them
+   (any subset of the defaults, encryption on or off, a single signing algorithm, ...).  A parameter is
+   `negotiable` when the provider neither assigns it itself nor rewrites it as a URI - every parameter that has
+   a *_supported list is one.  record_within c cinfo: cinfo is a dictionary and every negotiable parameter in it
+   that has a provider-side list is a member (listy: a sub-list) of that list. *)
+
+(* view 1, the client database: an accepted registration stores a record within the lists.  This includes the two
+   signing algorithms that do_client_registration may remove after the filter (C19_metadata_within_support
+   leaves them out). *)
+Theorem C19_stored_within_lists : forall c st o st' cid resp,
+  NoDup (List.map fst (r_req o)) ->
+  register c st o = (st', OAccepted cid resp) ->
+  exists cinfo, assoc cid (s_cdb st') = Some cinfo /\ response_args c cinfo = Ok resp /\ record_within c cinfo.
+Proof. exact stored_record_within. Qed.
+Print Assumptions C19_stored_within_lists.
+
+(* view 2, the registration response *)
+Theorem C19_echoed_within_lists : forall c st o st' cid resp k sup v,
+  NoDup (List.map fst (r_req o)) ->
+  register c st o = (st', OAccepted cid resp) ->
+  assoc k (c_support c) = Some sup -> negotiable k = true -> assoc k resp = Some v -> within_support v sup.
+Proof. exact echoed_within_support. Qed.
+Print Assumptions C19_echoed_within_lists.
+
+(* view 3, the read endpoint, on any state whose record for that client lies within the lists *)
+Theorem C19_read_within_lists : forall c st hdr q now st' cid resp k sup v,
+  assoc K_auth_method (c_support c) = None ->
+  (forall cinfo, assoc cid (s_cdb st) = Some cinfo -> record_within c cinfo) ->
+  read c st hdr q now = (st', RAnswer cid resp) ->
+  assoc k (c_support c) = Some sup -> negotiable k = true -> assoc k resp = Some v -> within_support v sup.
+Proof. exact read_within_support. Qed.
+Print Assumptions C19_read_within_lists.
+
+(* No history of registrations and reads, with any requests (inside / outside the lists, alg without enc, enc
+   without alg, half-supported pairs) and any supply, brings a value outside the lists into the client database,
+   and whatever the read endpoint answers afterwards lies within them. *)
+Theorem C19_history_within_lists : forall c ops st st' outs,
+  assoc K_auth_method (c_support c) = None -> Forall op_wf ops -> cdb_within c st ->
+  run c st ops = (st', outs) -> cdb_within c st'.
+Proof. intros c ops. exact (history_within c ops). Qed.
+Print Assumptions C19_history_within_lists.
+
+Theorem C19_history_read_within_lists : forall c ops st st' outs hdr q now s2 cid resp k sup v,
+  assoc K_auth_method (c_support c) = None -> Forall op_wf ops -> cdb_within c st ->
+  run c st ops = (st', outs) ->
+  read c st' hdr q now = (s2, RAnswer cid resp) ->
+  assoc k (c_support c) = Some sup -> negotiable k = true -> assoc k resp = Some v -> within_support v sup.
+Proof. exact history_read_within. Qed.
+Print Assumptions C19_history_read_within_lists.
+
+(* alg without enc: RegistrationRequest.verify() completes the request with the specification default
+   A128CBC-HS256, and the filter then judges it like a requested value - it is stored only if the provider lists it *)
+Theorem C19_default_enc_only_if_listed : forall c st o st' cid resp k sup,
+  NoDup (List.map fst (r_req o)) ->
+  register c st o = (st', OAccepted cid resp) ->
+  In k enc_keys -> assoc k (c_support c) = Some sup ->
+  forall cinfo, assoc cid (s_cdb st') = Some cinfo -> assoc k cinfo = Some (VStr S_default_enc) -> In S_default_enc sup.
+Proof. exact default_enc_only_if_listed. Qed.
+Print Assumptions C19_default_enc_only_if_listed.
+
 (* ---- 2. a refusal stores nothing --------------------------------------------------------------- *)
 (* Any answer other than 201 (parse refusal, error message, exception) leaves cdb, the registration
    tokens and the key-jar owners exactly as they were, provided the token draw is fresh and no client-id
@@ -193,3 +254,74 @@ Example C19_nonvacuous_reject :
   fst (step ex_cfg st ex_bad1) = st /\ snd (step ex_cfg st ex_bad1) = OutReg (ORefused E_invalid_redirect_uri)
   /\ assoc (PS "tokC") (s_rat st) = None.
 Proof. cbv zeta. repeat split; vm_compute; reflexivity. Qed.
+
+(* ---- non-vacuity, restricted lists: ID Token encryption on with GCM-only enc values and two alg values, a single
+   ID Token signing algorithm, response types code / id_token ---- *)
+Definition K_idt_enc_alg := PS "id_token_encrypted_response_alg".
+Definition K_idt_enc_enc := PS "id_token_encrypted_response_enc".
+Definition rx_cfg : cfg :=
+  mkCfg [(K_response_types, [PS "code"; PS "id_token"]);
+         (K_idt_enc_alg, [PS "RSA-OAEP"; PS "ECDH-ES"]);
+         (K_idt_enc_enc, [PS "A128GCM"; PS "A256GCM"]);
+         (K_idt_sig, [PS "ES256"])]
+        [K_response_types; K_redirect_uris]
+        [K_client_id; K_client_secret; K_rat; K_rcu; K_issued_at; K_secret_expires; K_redirect_uris; K_response_types;
+         K_application_type; K_idt_enc_alg; K_idt_enc_enc; K_idt_sig]
+        [PS "ES256"] (Some (PS "https://op.example/registration_api")) (Some 3600%Z).
+Definition rx_st0 : state := mkSt [] [] [].
+Definition rx_req (extra : dict) : dict :=
+  [(K_application_type, VStr (PS "web")); (K_response_types, VList [VStr (PS "code")]);
+   (K_redirect_uris, VList [VStr (PS "https://a.example.com/cb")])] ++ extra.
+Definition rx_reg (extra : dict) : state * outcome :=
+  register rx_cfg rx_st0 (mkReg (rx_req extra) [PS "idX"] (PS "s") (PS "tokX") (PS "secX") true 100%Z).
+Definition rx_stored (extra : dict) (k : pystr) : option pyval :=
+  match assoc (PS "idX") (s_cdb (fst (rx_reg extra))) with Some ci => assoc k ci | None => Some VNone end.
+Definition rx_echoed (extra : dict) (k : pystr) : option pyval :=
+  match snd (rx_reg extra) with OAccepted _ r => assoc k r | _ => Some VNone end.
+
+Example C19_nonvacuous_restricted :
+  (* alg only: the default enc is filled in, judged (not listed here) and dropped; the alg stays *)
+  rx_stored [(K_idt_enc_alg, VStr (PS "RSA-OAEP"))] K_idt_enc_alg = Some (VStr (PS "RSA-OAEP"))
+  /\ rx_stored [(K_idt_enc_alg, VStr (PS "RSA-OAEP"))] K_idt_enc_enc = None
+  /\ rx_echoed [(K_idt_enc_alg, VStr (PS "RSA-OAEP"))] K_idt_enc_enc = None
+  (* supported alg + unsupported enc; supported pair; unsupported alg + supported enc *)
+  /\ rx_stored [(K_idt_enc_alg, VStr (PS "ECDH-ES")); (K_idt_enc_enc, VStr (PS "A192GCM"))] K_idt_enc_enc = None
+  /\ rx_stored [(K_idt_enc_alg, VStr (PS "ECDH-ES")); (K_idt_enc_enc, VStr (PS "A256GCM"))] K_idt_enc_enc = Some (VStr (PS "A256GCM"))
+  /\ rx_echoed [(K_idt_enc_alg, VStr (PS "ECDH-ES")); (K_idt_enc_enc, VStr (PS "A256GCM"))] K_idt_enc_enc = Some (VStr (PS "A256GCM"))
+  /\ rx_stored [(K_idt_enc_alg, VStr (PS "RSA1_5")); (K_idt_enc_enc, VStr (PS "A128GCM"))] K_idt_enc_alg = None
+  (* enc without alg is refused before anything is stored *)
+  /\ rx_reg [(K_idt_enc_enc, VStr (PS "A128GCM"))] = (rx_st0, OParseRefused)
+  (* a single signing algorithm *)
+  /\ rx_stored [(K_idt_sig, VStr (PS "ES256"))] K_idt_sig = Some (VStr (PS "ES256"))
+  /\ rx_stored [(K_idt_sig, VStr (PS "RS256"))] K_idt_sig = None
+  /\ rx_stored [(K_idt_sig, VStr (PS "none"))] K_idt_sig = None
+  (* response types: the supported part is kept, nothing supported = refusal *)
+  /\ snd (register rx_cfg rx_st0 (mkReg [(K_response_types, VList [VStr (PS "id_token"); VStr (PS "token")]);
+                                         (K_redirect_uris, VList [VStr (PS "https://a.example.com/cb")])]
+                                        [PS "idX"] (PS "s") (PS "tokX") (PS "secX") true 100%Z))
+     = OAccepted (PS "idX") [(K_client_id, VStr (PS "idX")); (K_rat, VStr (PS "tokX"));
+                             (K_rcu, VStr (PS "https://op.example/registration_api?client_id=idX"));
+                             (K_issued_at, VInt 100%Z); (K_client_secret, VStr (PS "secX")); (K_secret_expires, VInt 3700%Z);
+                             (K_response_types, VList [VStr (PS "id_token")]);
+                             (K_redirect_uris, VList [VStr (PS "https://a.example.com/cb")])]
+  /\ snd (register rx_cfg rx_st0 (mkReg [(K_response_types, VList [VStr (PS "token")]);
+                                         (K_redirect_uris, VList [VStr (PS "https://a.example.com/cb")])]
+                                        [PS "idX"] (PS "s") (PS "tokX") (PS "secX") true 100%Z))
+     = ORefused E_invalid_request
+  (* the hypotheses of the history theorems are satisfiable *)
+  /\ cdb_within rx_cfg rx_st0 /\ assoc K_auth_method (c_support rx_cfg) = None
+  /\ negotiable K_idt_enc_enc = true /\ negotiable K_idt_sig = true /\ negotiable K_response_types = true.
+Proof.
+  repeat (split; [vm_compute; reflexivity|]).
+  split; [apply cdb_within_empty|]. repeat split; vm_compute; reflexivity.
+Qed.
+
+(* Tie to the source: Gen/Src_reg.v is the CURRENT idpyoidc.server.oidc.registration.random_client_id, translated by
+   harness/py2v.py on every run.  ids = successive results of rndstr(); reserved = cdb.keys().  The model's pick_id
+   (on which id uniqueness rests) is what the source computes, including running out of supply. *)
+From Verif Require Lib.PyOps Gen.Src_reg Proofs.Src_refine_reg.
+Theorem C19_random_client_id_is_source : forall ids cdb len clock,
+  Src_reg.random_client_id_src (List.map VStr ids) len (VList (List.map VStr (List.map fst cdb))) clock
+  = match pick_id ids cdb with Ok k => Ok (VStr k) | Err e => Err e | Unmodelled => Unmodelled end.
+Proof. exact Src_refine_reg.random_client_id_refines. Qed.
+Print Assumptions C19_random_client_id_is_source.
